@@ -223,6 +223,36 @@ fn type_for(t: &mut Tape, leaf: &J) -> (String, Option<Modifier>) {
     (ty.to_string(), modifier)
 }
 
+/// signature of the open known finding F39 (kept exact: any other failure on a deep document is still a violation)
+const DEEP_SIGNATURE: &str = "deep-json: a valid document nested 128 or more levels deep is read as not-JSON";
+
+/// maximal bracket nesting of the text outside string literals
+fn nesting_depth(text: &str) -> usize {
+    let (mut depth, mut max, mut in_str, mut escaped) = (0usize, 0usize, false, false);
+    for b in text.bytes() {
+        if in_str {
+            if escaped {
+                escaped = false;
+            } else if b == b'\\' {
+                escaped = true;
+            } else if b == b'"' {
+                in_str = false;
+            }
+            continue;
+        }
+        match b {
+            b'"' => in_str = true,
+            b'[' | b'{' => {
+                depth += 1;
+                max = max.max(depth);
+            }
+            b']' | b'}' => depth = depth.saturating_sub(1),
+            _ => {}
+        }
+    }
+    max
+}
+
 impl Property for C02 {
     type Case = Case;
 
@@ -234,7 +264,7 @@ impl Property for C02 {
         "a table with 1-6 JSON-path columns `{ .a.b[0] } => name TYPE [CONVERT | DEFAULT v | NOT NULL]` (paths drawn from a generated document's own path set, then mutated: wrong key, index out of range, \
          field-on-array, index-on-object, through a scalar; natural or deliberately wrong types) mixed with regex columns over the raw line, x lines that vary the document: fresh leaves (small ints, i64 extremes, \
          u64 above i64::MAX, 30-digit integers, floats, 1e400, strings that look like numbers / timestamps / contain escapes and non-ASCII, booleans, null), dropped keys, duplicated keys, subtrees replaced by scalars, \
-         compact or spaced rendering, truncated / trailing-comma / trailing-junk documents, non-JSON lines, top-level arrays and scalars. Oracle: path walk on the harness's own JSON tree and typing without coercion \
+         an unrelated field nested 30-600 levels deep (one case in twelve), compact or spaced rendering, truncated / trailing-comma / trailing-junk documents, non-JSON lines, top-level arrays and scalars. Oracle: path walk on the harness's own JSON tree and typing without coercion \
          (INT only from integer literals within i64, REAL from any number within 2 ULP, TEXT only from strings, BOOLEAN only from booleans, arrays element-wise, CONVERT parses strings, wrong type -> NULL, absent / invalid -> DEFAULT or NULL), \
          compared with TableDefinition::extract; plus column independence (removing the other columns does not change a column's value). Non-trivial: a valid-JSON line and a JSON column whose path resolves to a present leaf; distinct by (definition, line)."
             .to_string()
@@ -272,6 +302,22 @@ impl Property for C02 {
         }
         let mut all = Vec::new();
         paths(&doc, &mut Vec::new(), &mut all);
+        // one case in twelve: an unrelated field nested far deeper than anything else ("valid JSON of any shape and nesting")
+        if t.chance(1, 12) {
+            if let J::Obj(items) = &mut doc {
+                let mut depth = *t.pick(&[30usize, 100, 125, 126, 127, 128, 129, 200, 600]);
+                if _ctx.excluded("c02_deep_json") {
+                    // open known finding: documents nested deeper than 127 levels are read as not-JSON
+                    depth = depth.min(125);
+                }
+                let mut deep = if t.chance(1, 2) { J::Num("7".into()) } else { J::Arr(Vec::new()) };
+                for i in 0..depth {
+                    deep = if i % 5 == 4 && t.chance(1, 2) { J::Obj(vec![("n".into(), deep)]) } else { J::Arr(vec![deep]) };
+                }
+                let at = t.draw(items.len() + 1);
+                items.insert(at, ("deep".into(), deep));
+            }
+        }
         let mut entries = Vec::new();
         let ncols = 1 + t.draw(6);
         for c in 0..ncols {
@@ -389,6 +435,12 @@ impl Property for C02 {
             obs.inner += 1;
             let valid = parse_json(line).is_ok();
             obs.label(if valid { "valid-json-line" } else { "invalid-json-line" });
+            let depth = nesting_depth(line);
+            if depth > 64 {
+                obs.label("deeply-nested-line");
+            }
+            // (serde_json stops at 128 levels: see the known finding)
+            let deep_tag = valid && depth >= 128;
             if valid && line.matches("\"a\"").count() >= 2 || line.matches("\"b\"").count() >= 2 {
                 obs.label("duplicate-key");
             }
@@ -404,6 +456,9 @@ impl Property for C02 {
                 }
                 ModelRow::Row(cells) => {
                     if real.columns.is_empty() {
+                        if deep_tag {
+                            return Err(Failure::new(DEEP_SIGNATURE, format!("nesting depth {}: the line yields no row; expected {:?}\n  {}", depth, cells, context)));
+                        }
                         return Err(Failure::new("row-dropped", format!("the line yields no row although every NOT NULL column has a value; expected {:?}\n  {}", cells, context)));
                     }
                     for (ci, (cell, got)) in cells.iter().zip(real.columns.iter()).enumerate() {
@@ -426,6 +481,9 @@ impl Property for C02 {
                                 Some(Modifier::NotNull) => "+notnull",
                                 _ => "",
                             };
+                            if deep_tag && kind == "json" && (got_v.is_null() || matches!(m, Some(Modifier::Default(_)))) {
+                                return Err(Failure::new(DEEP_SIGNATURE, format!("nesting depth {}: column {} ({}) extracted {:?}, expected {:?}\n  {}", depth, colnames[ci], ty, got_v, cell, context)));
+                            }
                             return Err(Failure::new(
                                 format!("value: {} {}{}{}", kind, ty, mtag, if valid { "" } else { " (invalid json)" }),
                                 format!("column {} ({}): extracted {:?}, expected {:?}\n  {}", colnames[ci], ty, got_v, cell, context),
